@@ -89,6 +89,9 @@ structure Pkg where
   minor : Nat
   tags : List String
   objs : List Obj
+  /-- `p.Imports()`: the packages the extracted package imports directly (an inherited method of an
+      embedded foreign interface may mention types of packages that are not among them) -/
+  directImports : List String := []
   deriving Repr
 
 /-! ### the output: abstract wrapper file -/
@@ -212,6 +215,8 @@ structure Facts where
   usePkg : List String
   /-- statements of fixConst's Complex case -/
   fixComplex : List String
+  /-- the loop that pre-populates `imports` and the body of the closure `qualify` -/
+  qualify : List String
   /-- named lines of the template -/
   tmpl : List (String × String)
   defaultMinor : Nat
@@ -252,6 +257,10 @@ structure Knobs where
   restrictedStdOnly : Bool
   /-- the extracted package is imported only if a binding names it (UsePkg) -/
   importIfUsed : Bool
+  /-- `qualify` marks every package it prints other than the extracted one -/
+  qualifyForeign : Bool
+  /-- `qualify` marks a package only if `imports` already has it (the direct imports) -/
+  qualifyDirectOnly : Bool
   litInt : Bool
   litFloat : Bool
   litString : Bool
@@ -337,6 +346,10 @@ def knobsOf (F : Facts) : Knobs :=
     importIfUsed := lookup "importpkg" F.tmpl == some "{{- if .UsePkg }}" &&
       F.usePkg == ["\"UsePkg\": usePkg", "usePkg := len(typ) > 0",
         "range name, v val => usePkg = usePkg || v.Name == p.Name()+\".\"+name"]
+    qualifyForeign := F.qualify == ["range _, pkg p.Imports() => imports[pkg.Path()] = false",
+      "if pkg.Path() != importPath => imports[pkg.Path()] = true", "return pkg.Name()"]
+    qualifyDirectOnly := F.qualify == ["range _, pkg p.Imports() => imports[pkg.Path()] = false",
+      "if _, ok := imports[pkg.Path()]; ok => imports[pkg.Path()] = true", "return pkg.Name()"]
     litInt := lookup "Int" F.fixCases == some "INT"
     litFloat := lookup "Float" F.fixCases == some "FLOAT" &&
       F.fixFloat == ["v := constant.Val(val)", "f, ok := v.(*big.Float)",
@@ -600,14 +613,17 @@ def wtypes (K : Knobs) (p : Pkg) : List Obj → List WType
   | [] => []
   | o :: os => if wrapKept K o then wtypeOf K p o :: wtypes K p os else wtypes K p os
 
-/-- packages `qualify` marks while the signatures of the emitted methods are printed -/
-def methodDeps (p : Pkg) (m : Method) : List String :=
-  ((m.params ++ m.results).flatMap (·.deps)).filter (· != p.importPath)
+/-- packages `qualify` marks while the signatures of the emitted methods are printed (a form of the
+    closure the model does not know marks nothing) -/
+def methodDeps (K : Knobs) (p : Pkg) (m : Method) : List String :=
+  ((m.params ++ m.results).flatMap (·.deps)).filter fun d =>
+    if K.qualifyForeign then d != p.importPath
+    else K.qualifyDirectOnly && p.directImports.contains d
 
 def typeImports (K : Knobs) (p : Pkg) : List Obj → List String
   | [] => []
   | o :: os =>
-    (if wrapKept K o then (keptMethods K (methodsOf o.kind)).flatMap (methodDeps p) else []) ++ typeImports K p os
+    (if wrapKept K o then (keptMethods K (methodsOf o.kind)).flatMap (methodDeps K p) else []) ++ typeImports K p os
 
 /-- genBuildTags and the tag handling of genContent -/
 def buildTags (K : Knobs) (p : Pkg) : String :=
